@@ -126,13 +126,15 @@ class L2Prog:
             core = 'echo_query("%s", ctx.deps, &ctx.env, %s)' % (m.name, args)
             pre = ""
             if custom_err:
-                pre = 'if custom_fail(ctx.deps.storage) { return Err(ContractError::Named("%s".to_string())); } ' % m.name
+                pre = 'if custom_fail(ctx.deps.storage) || %s.iter().any(|a: &String| a.contains("__failcustom__")) { return Err(ContractError::Named("%s".to_string())); } ' % (args, m.name)
             return "{ %sOk(%s?) }" % (pre, core)
         info = "Some(&ctx.info)" if m.kind in ("exec", "instantiate") else "None"
         core = 'echo_mut("%s", "%s", ctx.deps, &ctx.env, %s, %s)' % (m.name, m.kind, info, args)
         pre = ""
         if custom_err:
-            pre = 'if custom_fail(ctx.deps.storage) { return Err(ContractError::Named("%s".to_string())); } ' % m.name
+            # (an argument holding the marker makes the handler fail with the contract's own error type - usable where no
+            #  storage exists yet: instantiate)
+            pre = 'if custom_fail(ctx.deps.storage) || %s.iter().any(|a: &String| a.contains("__failcustom__")) { return Err(ContractError::Named("%s".to_string())); } ' % (args, m.name)
         return "{ %sOk(%s?) }" % (pre, core)
 
     # ---- concrete types ------------------------------------------------------------------------
